@@ -43,7 +43,12 @@ TABLE.update({
         "pool) of parent-attribute assignments, set add/discard/remove/pop/"
         "clear/update/|=/-=/^=/&=, module-list append/insert/extend/+=/del/"
         "slice and extended-slice assignment/pop/remove/clear/reverse, "
-        "constructors with parent or children arguments and save+load, over a "
+        "constructors with parent or children arguments and save+load, with "
+        "operands that are lists, sets, frozensets, one-shot generators and "
+        "the LIVE collections of this or another parent (x.update(y.sections), "
+        "ir2.modules.extend(ir1.modules), Section(byte_intervals=s."
+        "byte_intervals)), and observations (lookups, aggregate iterators) as "
+        "operations of the alphabet, over a "
         "pool of 2 IRs, 2 modules and one node of every other kind and a second "
         "pool with 2 sections, 2 intervals, a code and a data block (thorough: "
         "two wider pools), a third pool with 3 modules in 2 IRs for list index "
@@ -127,7 +132,8 @@ TABLE.update({
         "explicit-state BFS to fix-point over size / initialized_size / "
         "contents histories on the real ByteInterval, (size, bytes) model",
         "All histories (fix-point) of size assignments 0..4, initialized_size "
-        "assignments not above size, whole-content replacement, in-place "
+        "assignments not above size, whole-content replacement (by a "
+        "bytearray and by an immutable bytes object), in-place "
         "byte edits, appends and deletions and save+load, from four initial "
         "intervals (empty, full, all-uninitialised, loaded). In every state: "
         "initialized_size == stored bytes == model bytes, stored <= size, the "
